@@ -11,7 +11,9 @@ import (
 	"go/types"
 )
 
-func init() { register("C39", checkC39, "./db19/...", "./util/ordset/...", "./util/ranges/...", "./util/lrucache/...", "./util/cache/...", "./util/roaring/...") }
+func init() {
+	register("C39", checkC39, "./db19/...", "./util/ordset/...", "./util/ranges/...", "./util/lrucache/...", "./util/cache/...", "./util/roaring/...")
+}
 
 func checkC39(c *Ctx) string {
 	p := c.P
